@@ -479,6 +479,35 @@ func (s *shapeSet) call(e *enc, x *ssa.Call, recvType, method string, args []Ter
 				}
 			}
 		}
+		// at least one character per token: the text is at least as long as the least number of tokens of the children
+		if db != nil && len(kinds) > 0 && len(kinds) <= 4 {
+			e.nodeFacts(db, kinds, n, false)
+			for _, k := range kinds {
+				cs := db.ctx[k]
+				if cs == nil || db.bad[k] != "" {
+					continue
+				}
+				var terms []string
+				for _, sname := range cs.syms {
+					w := 1
+					if unicode.IsLower(rune(sname[0])) {
+						w = db.minTok[sname]
+						if w >= 1<<20 {
+							w = 0
+						}
+					} else if sname == "EOF" {
+						w = 0
+					}
+					if w > 0 {
+						terms = append(terms, fmt.Sprintf("(* %d (%s %s %d))", w, e.fCnt(), n, e.symTag(sname)))
+					}
+				}
+				if len(terms) > 0 {
+					e.assumps["every token has at least one character: the text of a node is at least as long as the number of tokens below it"] = true
+					e.assume(fmt.Sprintf("(=> (and (not (= %s 0)) (= (%s %s) %d)) (>= (str.len %s) (+ %s 0)))", n, e.fKind(), n, e.kindTag(k), r, strings.Join(terms, " ")))
+				}
+			}
+		}
 		if nonEmpty {
 			e.assumps["antlr runtime: GetText() of a rule context is the concatenation of its tokens' text (non-empty when the rule cannot match nothing; no token of these grammars has empty text)"] = true
 			e.assume(fmt.Sprintf("(=> (not (= %s 0)) (> (str.len %s) 0))", n, r))
